@@ -151,7 +151,13 @@ pub fn explore(run: &WrRun) -> Outcome {
         }
     };
     let mut sampled = false;
+    let t_start = std::time::Instant::now();
+    let wall_cap = crate::rdsys::wall_cap_s() * 5;
     while let Some(id) = queue.pop_front() {
+        if (id & 0xFF) == 0 && t_start.elapsed().as_secs() >= wall_cap {
+            out.cov.caps_hit.push(format!("{}: wall cap of {} s reached after {} states", cfg, wall_cap, nodes.len()));
+            break;
+        }
         let nviol: u64 = sigs.values().sum();
         if nviol >= crate::rdsys::VIOLATION_BUDGET {
             out.cov.caps_hit.push(format!("{}: exploration stopped after {} violations", cfg, nviol));
